@@ -147,7 +147,8 @@ class Spec(PropSpec):
     rule = ("scripts drive the real turmoil-net kernel + tokio shim on the harness thread; the harness is the wire "
             "(egress_all -> scripted deliver / drop / overtake -> deliver); random KernelConfig (MSS 1..1460, caps 1..70000, "
             "IPv4/IPv6, loopback and cross-host), writes until blocked, slow reads, UDP send_to AND connected send / try_send "
-            "around the MTU limit of the destination's path; 'mixed' worlds: one host with a loopback and a cross-host "
+            "around the MTU limit of the destination's path (deterministic boundary family up to 131072+k bytes through all four "
+            "send calls); 'mixed' worlds: one host with a loopback and a cross-host "
             "connection that both have unsent data in the same egress sweep (both socket-table orders, loopback_mtu != mtu), "
             "every emitted segment checked against the MSS of the interface it leaves from; compared: "
             "every packet (flags, seq, ack, window, payload), every op result, netstat, table counts. Non-trivial = a write "
@@ -164,7 +165,7 @@ class Spec(PropSpec):
         n = 400 if ctx.tier == "quick" else 2500
         if ctx.escalate:
             n *= 2
-        cases = []
+        cases = F.udp_boundary_cases()
         for i in range(n):
             r = i % 8
             if r < 4:
